@@ -253,5 +253,5 @@ def run(ctx: Ctx):
         "NOT decided: that iteration starts from exactly the tensor the initialisation represents (weight folding) -- numeric, out of static reach, neither claimed nor listed as a finding",
         "with normalisation / orthogonalisation / line search ON all factors are legitimately rewritten; the rule does not speak about those configurations",
     )
-    fixed_not_written(ctx)
-    pure_move(ctx)
+    ctx.guarded(fixed_not_written, ctx)
+    ctx.guarded(pure_move, ctx)
